@@ -274,6 +274,27 @@ func statusCases() []caseRec {
 		}
 		out = append(out, caseRec{Kind: "status", Name: fmt.Sprintf("inherit#%v", p), Mods: map[string]string{"a": hdr + sk.text(p, "status") + " }"}, Expect: expect, Fields: fields})
 	}
+	// status written on a uses / augment and on the node it brings in: the node's own status is kept
+	// when it is at least as obsolete as the statement's; without one it takes the statement's.  (A
+	// node more current than the uses/augment that brings it is not settled by the property: skipped.)
+	for _, own := range vals {
+		for _, via := range vals {
+			if own != "" && statusRank[own] < statusRank[via] {
+				continue
+			}
+			want := statusRank[via]
+			if own != "" {
+				want = statusRank[own]
+			}
+			ownStmt, viaStmt := stmt("status", own), stmt("status", via)
+			out = append(out, caseRec{Kind: "status", Name: fmt.Sprintf("uses#own=%s#via=%s", own, via),
+				Mods:   map[string]string{"a": hdr + fmt.Sprintf("grouping g { leaf a { type string;%s } container gc {%s leaf in { type string; } } } container c { uses g {%s } }", ownStmt, ownStmt, viaStmt) + " }"},
+				Expect: "ok", Fields: map[string]string{"/c/a|status": statusName[want], "/c/gc|status": statusName[want], "/c/gc/in|status": statusName[want]}})
+			out = append(out, caseRec{Kind: "status", Name: fmt.Sprintf("augment#own=%s#via=%s", own, via),
+				Mods:   map[string]string{"a": hdr + fmt.Sprintf("container c { leaf base { type string; } } augment /a:c {%s leaf a { type string;%s } }", viaStmt, ownStmt) + " }"},
+				Expect: "ok", Fields: map[string]string{"/c/a|status": statusName[want], "/c/base|status": "Current"}})
+		}
+	}
 	// references between definitions of different status in one module
 	sts := []string{"current", "deprecated", "obsolete"}
 	for _, s1 := range sts {
